@@ -6,8 +6,9 @@
 EXTENDS Xform, Json, IOUtils
 
 Rec == ndJsonDeserialize(IOEnv.TRACE)
-Bad == {k \in DOMAIN Rec : ~Allowed(Rec[k])}
-Why(e) == IF ~CoreAllowed(e) THEN "core"
+IsRot(e) == "op" \in DOMAIN e /\ e.op = "bigrot"
+Bad == {k \in DOMAIN Rec : IF IsRot(Rec[k]) THEN ~RotAllowed(Rec[k]) ELSE ~Allowed(Rec[k])}
+Why(e) == IF IsRot(e) THEN "bigrot" ELSE IF ~CoreAllowed(e) THEN "core"
           ELSE "vec_" \o VecClass(e, PathMat(e.path), Tol(MaxAbs(PathMat(e.path)) + 4))
 
 ASSUME PrintT(<<"TVSTAT", Len(Rec), Len(Rec)>>)
